@@ -1,6 +1,8 @@
 import GomlVerif.Model.Lower
 import GomlVerif.Model.Resolve
 import GomlVerif.Lemmas.LowerStack
+import GomlVerif.Lemmas.LowerOk
+import GomlVerif.Lemmas.LowerOkFn
 /-!
 # CST→AST lowering — properties of `Model/Lower.lean`
 
@@ -71,43 +73,60 @@ theorem lower_total_partial (C : List String) (n : Nat) (node : Cst) (s : St) :
   obtain ⟨ext, h1, h2, _⟩ := h.stmt node s.locals s rfl
   exact ⟨ext, h1, h2⟩
 
-/-- `patVars` (the model of `LowerCtx::bind_pat`) pushes exactly the names the C05 specification puts in scope for
-a pattern: a variable binds its name, every other form binds what its sub-patterns bind, left to right -/
-def scopePat : Pat → Resolve.Pat
-  | .var x => .var x 0
-  | .wild => .other []
-  | .lit _ => .other []
-  | .constr _ args => .other (scopePats args)
-  | .struct _ fields => .other (scopeFields fields)
-  | .tuple ps => .other (scopePats ps)
-where
-  scopePats : List Pat → List Resolve.Pat
-    | [] => []
-    | p :: ps => scopePat p :: scopePats ps
-  scopeFields : List FieldPat → List Resolve.Pat
-    | [] => []
-    | .mk _ p :: fs => scopePat p :: scopeFields fs
-
 end Goml.Lower
 
 namespace Goml.Lower
 open Goml.Src
 
-mutual
-theorem patVars_scope : ∀ p : Pat, Resolve.patNames (scopePat p) = patVars p
-  | .var x => by simp [scopePat, Resolve.patNames, patVars]
-  | .wild => by simp [scopePat, Resolve.patNames, Resolve.patsNames, patVars]
-  | .lit _ => by simp [scopePat, Resolve.patNames, Resolve.patsNames, patVars]
-  | .constr _ args => by simp [scopePat, Resolve.patNames, patVars, patVarsList_scope args]
-  | .struct _ fields => by simp [scopePat, Resolve.patNames, patVars, patVarsFields_scope fields]
-  | .tuple ps => by simp [scopePat, Resolve.patNames, patVars, patVarsList_scope ps]
-theorem patVarsList_scope : ∀ ps : List Pat, Resolve.patsNames (scopePat.scopePats ps) = patVarsList ps
-  | [] => by simp [scopePat.scopePats, Resolve.patsNames, patVarsList]
-  | p :: ps => by simp [scopePat.scopePats, Resolve.patsNames, patVarsList, patVars_scope p, patVarsList_scope ps]
-theorem patVarsFields_scope : ∀ fs : List FieldPat, Resolve.patsNames (scopePat.scopeFields fs) = patVarsFields fs
-  | [] => by simp [scopePat.scopeFields, Resolve.patsNames, patVarsFields]
-  | .mk _ p :: fs => by simp [scopePat.scopeFields, Resolve.patsNames, patVarsFields, patVars_scope p, patVarsFields_scope fs]
-end
+/-- `patVars` (the model of `LowerCtx::bind_pat`) pushes exactly the names the C05 specification puts in scope for
+a pattern (`Resolve.patNames` of its scope-tree image) -/
+theorem patVars_scope (p : Pat) : Resolve.patNames (scopePat p) = patVars p := patNames_scopePat p
+
+/-- **`lower_ctor_iff`.** For EVERY tree, fuel and state: if lowering an expression (with no pending postfix
+operations) from the binder stack `Γ = s.locals` yields `e`, then `e` is classified exactly as the DECLARATIVE scope
+rules of `Model/Resolve.lean` say, with `Γ` as the enclosing local binders and the scope extended only downwards
+(`Γ ++ params` in a closure body, `Γ ++ patNames p` in an arm body and in the rest of a block after `let p`):
+* every `EConstr [x] args` (scope tree: `con x`) has `x ∈ C` (a constructor of the file) and no enclosing local binder
+  spelled `x`;
+* vice versa every classified one-segment `EPath [x]` (scope tree: `var x`; also as the callee of a call) is NOT such
+  a name: `x ∉ C` or a local binder `x` encloses it (`classOkExpr`, both directions in one Boolean);
+* hence `Resolve.conOkExpr` — the hypothesis of `resolve_refines_spec` (Props/C05.lean) — holds of the lowered AST:
+  it is a theorem about the lowering model, no longer a per-case check.
+The invariant behind it (`Lemmas/LowerOk.lean`, `coreOk`): at every node the stack IS the list of binders the C05
+specification has in scope there (`lower_binder_stack_balanced` + `patVars_scope` + `isCtorPath_bare_iff`). -/
+theorem lower_ctor_iff (C D : List String) (n : Nat) (node : Cst) (s : St) (e : Expr)
+    (h : (lowerExprW C n node [] s).1 = some e) :
+    classOkExpr C s.locals (scopeOf e) = true ∧ Resolve.conOkExpr ⟨C, D⟩ s.locals (scopeOf e) = true := by
+  have hk := ((coreOk C n).exprW node [] s.locals nil_okT s rfl).2.2 e h
+  exact ⟨hk.1, conOk_expr D _ _ hk.1⟩
+
+/-- the same for a block (a function body, a branch, a closure or arm body that is a block) and for a match arm -/
+theorem lower_ctor_iff_block (C D : List String) (n : Nat) (node : Cst) (s : St) (e : Expr)
+    (h : (lowerBlock C n node s).1 = some e) :
+    classOkExpr C s.locals (scopeOf e) = true ∧ Resolve.conOkExpr ⟨C, D⟩ s.locals (scopeOf e) = true := by
+  have hk := ((coreOk C n).block node s.locals s rfl).2.2 e h
+  exact ⟨hk.1, conOk_expr D _ _ hk.1⟩
+
+theorem lower_ctor_iff_arm (C D : List String) (n : Nat) (node : Cst) (s : St) (p : Pat) (b : Expr)
+    (h : (lowerArm C n node s).1 = some (.mk p b)) :
+    classOkExpr C (s.locals ++ patVars p) (scopeOf b) = true ∧
+      Resolve.conOkExpr ⟨C, D⟩ (s.locals ++ Resolve.patNames (scopePat p)) (scopeOf b) = true := by
+  have hk : OkArm C s.locals (.mk p b) := ((coreOk C n).arm node s.locals s rfl).2.2 _ h
+  rw [patNames_scopePat]
+  exact ⟨hk.1, conOk_expr D _ _ hk.1⟩
+
+/-- … and for a whole function (`lower_fn`, also the methods of an `impl`): lowered at top level (empty stack), its body
+is classified under exactly its parameter names — the scope `Resolve.specFn` / `resolveFn` start from. So `conOkExpr`,
+the hypothesis of `resolve_refines_spec` / `resolveFn_refines_spec`, holds of every function the lowering model produces. -/
+theorem lower_ctor_iff_fn (C D : List String) (n : Nat) (node : Cst) (s : St) (f : FnDef)
+    (hs : s.locals = []) (h : (lowerFn C n node s).1 = some f) :
+    classOkExpr C (f.params.map (·.1)) (scopeOf f.body) = true ∧
+      Resolve.conOkExpr ⟨C, D⟩ (f.params.map (·.1)) (scopeOf f.body) = true ∧
+      (lowerFn C n node s).2.locals = [] := by
+  have hb := ok_lowerFn (C := C) n node [] s hs
+  have hk := hb.2.2 f h
+  simp only [List.nil_append] at hk
+  exact ⟨hk.1, conOk_expr D _ _ hk.1, hb.1⟩
 
 /-! ## non-vacuity: concrete trees -/
 
